@@ -1,4 +1,5 @@
 import Fv.Lemmas.OneshotBReach
+import Fv.Props.OneshotBWit
 /-!
 Property theorems of the STEP-LEVEL oneshot model `Fv.Chan.OneshotB` — over ALL programs (any number of
 sender handles / clones, any op lists), all interleavings of single atomic actions, spurious park
@@ -139,91 +140,5 @@ theorem try_recv_corrupt_arms_unreachable (h : Reach progS progR s) (a : Ag) :
 theorem writer_taker_exclusive (h : Reach progS progR s) :
     (s.st = .writing ↔ s.writer ≠ none) ∧ (s.taker ≠ none → s.st = .taken ∧ s.slot ≠ none) :=
   ⟨(reach_ainv h).i2.stW, fun ht => ⟨(reach_ainv h).i3.tkSt ht, (reach_ainv h).i3.tkSl ht⟩⟩
-
-/-! ## Witnesses on concrete programs and schedules (`decide` on `run`) -/
-
-/-- a whole operation of handle `a` with `n` actions between call and return -/
-def opS (a : Ag) (n : Nat) : List (Ag × Label) := (a, .call) :: (List.replicate n (a, .act) ++ [(a, .ret)])
-/-- call + the first `n` actions of an operation -/
-def opP (a : Ag) (n : Nat) : List (Ag × Label) := (a, .call) :: List.replicate n (a, .act)
-def acts (a : Ag) (n : Nat) : List (Ag × Label) := List.replicate n (a, .act)
-
-/-- F18 program: `s1 = s0.clone(); s0.send(1); rx.try_recv(); block_on(rx.recv())` ‖ `drop(s1)` -/
-def f18S : Nat → List Op
-  | 0 => [.clone, .send 1]
-  | 1 => [.drop]
-  | _ => []
-def f18R : List Op := [.tryRecv, .recv 7]
-/-- clone; send (Ok); try_recv takes the value (state TAKEN); recv polls, registers, answers Pending and
-parks; THEN the last sender handle is dropped: `decrement_senders` finds TAKEN and wakes nobody. -/
-def f18Sched : List (Ag × Label) :=
-  opS (.S 0) 1 ++ opS (.S 0) 12 ++ opS .R 5 ++ opP .R 6 ++ opS (.S 1) 6
-
-/-- C05 / C06 FAILS on the code as it is (known finding F18, `oneshot:recv:blocked-after-all-senders-gone`;
-replay: /verif/findings/OneshotB_F18.case): a reachable state in which the receiver is parked in
-`recv()` with no park token, its waker still registered and armed, nobody about to wake it (every sender
-handle is gone and idle), although the state is TAKEN and `sender_count` is 0 — the next poll would
-answer `Disconnected`, but it never happens. -/
-theorem C05_fails_F18_recv_parked_in_TAKEN_never_woken :
-    (run (init f18S f18R) f18Sched).map (fun s =>
-      decide ((s.loc .R).m = .park ∧ s.tok 7 = false ∧ s.waker = some (.task 7) ∧ s.armed = true ∧
-        s.st = .taken ∧ s.scount = 0 ∧ s.closer = none ∧
-        s.gone (.S 0) = true ∧ s.gone (.S 1) = true ∧ (s.loc (.S 0)).m = .idle ∧ (s.loc (.S 1)).m = .idle ∧
-        s.received = [1])) = some true := by decide
-
-/-- `Receiver::is_closed` is not atomic (state word, then `sender_count`): it answers `true` from a stale
-EMPTY and a fresh count 0 while a value is SENT and waiting to be received. Program: `tx.send(1)` ‖
-`rx.is_closed()`; schedule: the probe loads EMPTY, the whole send (and the drop of the sender) runs, the
-probe loads count 0. (This is why the linearizability tie does not compare that probe.) -/
-theorem receiver_is_closed_stale_true :
-    (run (init (fun i => if i = 0 then [.send 1] else []) [.isClosed])
-      (opP .R 1 ++ opS (.S 0) 17 ++ acts .R 1)).map (fun s =>
-      decide ((s.loc .R).m = .ret (.b true) ∧ s.st = .sent ∧ s.slot = some 1 ∧ s.sres 0 = some .ok)) = some true := by decide
-
-/-- reopen program: two handles are closed, the second closed handle is cloned and the clone sends -/
-def reopenS : Nat → List Op
-  | 0 => [.clone, .close]
-  | 1 => [.close, .clone]
-  | 2 => [.send 5]
-  | _ => []
-def reopenSched : List (Ag × Label) :=
-  opS (.S 0) 1 ++ opS (.S 1) 2 ++ opP (.S 0) 2 ++          -- s1 = s0.clone(); s1.close(); s0.close() up to the fetch_sub (count 0)
-  opP .R 3 ++                                               -- try_recv: EMPTY, count 0, about to CAS EMPTY→CLOSED
-  opS (.S 1) 1 ++ opS (.S 2) 17 ++                          -- s2 = s1.clone() (a closed handle!); s2.send(5) → Ok
-  acts .R 1 ++ [(.R, .ret)] ++ opS .R 5                     -- the CAS fails, try_recv says Disconnected; the next one gets 5
-
-/-- C04 "Disconnected is final" FAILS once a CLOSED sender handle is cloned (the known
-clone-of-closed-handle family): `try_recv` answers `Disconnected` from a stale EMPTY + count 0, the next
-`try_recv` returns the value a resurrected sender sent in between. -/
-theorem C04_fails_disconnected_then_value_after_reopen :
-    (run (init reopenS [.tryRecv, .tryRecv]) reopenSched).map (fun s =>
-      decide (s.results .R = [.disc, .okV 5] ∧ s.reopened = true ∧ s.discRace = true)) = some true := by decide
-
-/-! ### teardown orders (non-vacuity of `teardown_no_leak`: `freed` is reached with the value in each place) -/
-
-def oneSend : Nat → List Op := fun i => if i = 0 then [.send 1] else []
-
-/-- value never taken, sender gone first: the receiver's Drop claims SENT→TAKEN and drops the value. -/
-example : (run (init oneSend [.drop]) (opS (.S 0) 17 ++ opS .R 8)).map (fun s =>
-    decide (s.freed = true ∧ s.dropped = [1] ∧ s.received = [] ∧ s.slot = none ∧ s.sres 0 = some .ok)) = some true := by decide
-
-/-- receiver dropped first, while the sender is between its CAS and the slot write ("drop race"): the send
-still reports Ok, the last sender's `decrement_senders` claims SENT→TAKEN and drops the value. -/
-example : (run (init oneSend [.drop]) (opP (.S 0) 5 ++ opS .R 5 ++ acts (.S 0) 14 ++ [(.S 0, .ret)])).map (fun s =>
-    decide (s.freed = true ∧ s.dropped = [1] ∧ s.received = [] ∧ s.slot = none ∧ s.sres 0 = some .ok ∧
-      s.results (.S 0) = [.ok])) = some true := by decide
-
-/-- value taken by the receiver, then both sides go: nothing is dropped by the channel. -/
-example : (run (init oneSend [.tryRecv, .drop]) (opS (.S 0) 17 ++ opS .R 5 ++ opS .R 6)).map (fun s =>
-    decide (s.freed = true ∧ s.dropped = [] ∧ s.received = [1] ∧ s.slot = none)) = some true := by decide
-
-/-- receiver gone before the send starts: the send fails with `Closed(1)`, nothing enters the channel. -/
-example : (run (init oneSend [.drop]) (opS .R 5 ++ opS (.S 0) 11)).map (fun s =>
-    decide (s.freed = true ∧ s.moved = [] ∧ s.sres 0 = some (.closedV 1) ∧ s.results (.S 0) = [.closedV 1])) = some true := by decide
-
-/-- two senders race: exactly one `Ok`, the other gets its value back (`send_ok_unique`, `token_fate`). -/
-example : (run (init (fun i => if i = 0 then [.clone, .send 1] else if i = 1 then [.send 2] else []) [])
-    (opS (.S 0) 1 ++ opP (.S 0) 4 ++ opS (.S 1) 7 ++ acts (.S 0) 13 ++ [(.S 0, .ret)])).map (fun s =>
-    decide (s.sres 0 = some .ok ∧ s.sres 1 = some (.sentV 2) ∧ s.moved = [1] ∧ s.slot = some 1)) = some true := by decide
 
 end Fv.Props.OneshotB
